@@ -215,6 +215,16 @@ func runC08(c *mon.Case) {
 		d.plains = append(d.plains, p)
 		d.written++
 	}
+	// What ReadMessage returned stays the reader's: the last few results of
+	// each direction are kept and looked at again after later records were
+	// read ("keep decrypting to exactly what was written" for a caller of the
+	// message API that holds on to a message while it reads the next one).
+	type keptMsg struct {
+		idx  int
+		p    []byte
+		copy []byte
+	}
+	keptBy := map[*dirState][]keptMsg{}
 	read := func(d *dirState) {
 		i := d.read
 		if k := d.r.VerifSnapshot().RecvKey; k != d.lastRKey {
@@ -233,6 +243,19 @@ func runC08(c *mon.Case) {
 		}
 		d.plains[i] = nil
 		d.read++
+		for _, k := range keptBy[d] {
+			if !bytes.Equal(k.p, k.copy) {
+				fail("read-result-changed-later", fmt.Sprintf("%s record #%d: the %d bytes ReadMessage returned were overwritten when record #%d was read", d.name, k.idx, len(k.copy), i))
+				stop = true
+				break
+			}
+		}
+		if len(p) <= 4096 {
+			keptBy[d] = append(keptBy[d], keptMsg{idx: i, p: p, copy: append([]byte{}, p...)})
+			if len(keptBy[d]) > 3 {
+				keptBy[d] = keptBy[d][1:]
+			}
+		}
 	}
 	readFn = read
 	// schedule: bursts of one operation kind
